@@ -25,7 +25,12 @@ Schemas == [
                       O(<<"cfg", "t">>, <<O(<<"q">>, <<I(120)>>), E(<<"u">>)>>) @@ [required |-> <<"t">>]>>],
   B7 |-> O(<<"l">>, <<[type |-> "array", items |-> O(<<"a">>, <<I(20)>>)]>>),
   B8 |-> O(<<"a", "ro">>, <<I(20), [type |-> "string", readOnly |-> TRUE, default |-> St(<<"d">>)]>>),
-  B9 |-> O(<<"a">>, <<[type |-> "integer", default |-> Num(20), maximum |-> 40]>>) @@ [required |-> <<"b">>]
+  B9 |-> O(<<"a">>, <<[type |-> "integer", default |-> Num(20), maximum |-> 40]>>) @@ [required |-> <<"b">>],
+  \* a default behind allOf next to a oneOf / anyOf at the same level
+  B10 |-> [allOf |-> <<O(<<"a">>, <<I(20)>>)>>,
+           oneOf |-> <<O(<<"c", "k">>, <<SD(<<"x">>), E(<<"p">>)>>) @@ [required |-> <<"k">>], O(<<"k">>, <<E(<<"q">>)>>) @@ [required |-> <<"k">>]>>],
+  B11 |-> [allOf |-> <<O(<<"a">>, <<I(20)>>)>>,
+           anyOf |-> <<O(<<"c", "k">>, <<SD(<<"x">>), E(<<"p">>)>>) @@ [required |-> <<"k">>], O(<<"k">>, <<E(<<"q">>)>>) @@ [required |-> <<"k">>]>>]
 ]
 
 Bodies == [
@@ -39,7 +44,9 @@ Bodies == [
           Obj(<<"t">>, <<St(<<"u">>)>>), Obj(<<"cfg", "t">>, <<Obj(<<"q">>, <<Num(4)>>), St(<<"u">>)>>)},
   B7 |-> {EmptyObj, Obj(<<"l">>, <<Arr(<<EmptyObj, Obj(<<"a">>, <<Num(4)>>)>>)>>), Obj(<<"l">>, <<Arr(<<>>)>>)},
   B8 |-> {EmptyObj, Obj(<<"a">>, <<Num(4)>>)},
-  B9 |-> {EmptyObj, Obj(<<"b">>, <<Num(4)>>), Obj(<<"a", "b">>, <<Num(400), Num(4)>>)}
+  B9 |-> {EmptyObj, Obj(<<"b">>, <<Num(4)>>), Obj(<<"a", "b">>, <<Num(400), Num(4)>>)},
+  B10 |-> {Obj(<<"k">>, <<St(<<"p">>)>>), Obj(<<"k">>, <<St(<<"q">>)>>), Obj(<<"a", "k">>, <<Num(4), St(<<"p">>)>>), Obj(<<"k">>, <<St(<<"z">>)>>)},
+  B11 |-> {Obj(<<"k">>, <<St(<<"p">>)>>), Obj(<<"k">>, <<St(<<"q">>)>>), Obj(<<"a", "k">>, <<Num(4), St(<<"p">>)>>), Obj(<<"k">>, <<St(<<"z">>)>>)}
 ]
 
 Secs == {"none", "pass_ignore", "pass_read", "fail_read", "fail_read_then_pass", "fail_read_multi"}
